@@ -946,6 +946,10 @@ func UnknownToken(r *Rand, d *Decl, sc *Scope) string {
 					bs[r.Intn(len(bs))] = 'q'
 					name = string(bs)
 				}
+			} else if r.Chance(1, 8) {
+				// the empty long name: "--=value" and "--=" name no option at all (also not one that merely has no
+				// long name)
+				return r.Pick([]string{"--=", "--=v7", "--=with space"})
 			} else if r.Chance(1, 3) {
 				// names with characters that are special to formatted printing or to the message syntax
 				name = r.Pick([]string{"rate%d", "100%", "%s", "a%v%!b", "zz%", "sp ace", "tab\there", "%%"})
@@ -967,7 +971,7 @@ func UnknownToken(r *Rand, d *Decl, sc *Scope) string {
 				return "--" + name + "="
 			}
 		}
-		pool := []rune("abcdefgijklmnopqrstuvwxyzABCDEFGHIJKLMNOPQRSTUVWXYZ0123456789éλ世")
+		pool := []rune("abcdefgijklmnopqrstuvwxyzABCDEFGHIJKLMNOPQRSTUVWXYZ0123456789éλ世\x00\x00\x00\ufffd") // (NUL is "no short name" inside the library)
 		ru := pool[r.Intn(len(pool))]
 		if sc.Short[ru] != nil || (d.Options&flags.HelpFlag != 0 && ru == 'h') {
 			continue
